@@ -14,12 +14,12 @@ CHECKS = {
    note="Abstraction of parameter values to versions; oracle is the uncached twin of the same tree. " + TRUSTED),
 
  "C13": dict(
-   technique="TLA+ session specification (spec/Session.tla) model-checked by TLC; every zoo model driven along edge-covering walks of its state graph; every recorded step judged by TLC trace validation (TraceSession.tla); the repository's own test-suite is a second driver (recorded by a pytest plugin, judged by the same trace specification)",
+   technique="TLA+ session specification (spec/Session.tla) model-checked by TLC; every zoo model driven along edge-covering walks of its state graph; every recorded step judged by TLC trace validation (TraceSession.tla); the repository's own test-suite is a second driver (recorded by a pytest plugin, judged by the same trace specification); TLA+ specification of the conditioner networks as stage programs (spec/Nets.tla) model-checked by TLC, every finished pass replayed on the real ResidualNet / ConvResidualNet / MLP with the stage list interpreted over the real parameters",
    text="Session.tla states which state-dict categories each public call may write in which mode and when a repeated call must reproduce its result; TLC checks it over all model kinds. ~75 model configurations (every transform, distribution and flow class) are driven along walks covering every edge of that graph with plain, view, non-contiguous and requires-grad inputs, and TLC decides a verdict for each recorded step (argument modified / state written in eval / undocumented write / repeat differs).",
    design_ref="DESIGN.md section 4, C13",
    note="Side effects are observed via torch.equal, tensor version counters and the state dict; inputs are fixed per session. " + TRUSTED),
  "C14": dict(
-   technique="TLA+ life-cycle specifications (spec/ActNormLife.tla, spec/BatchNormLife.tla with exact rational running statistics) model-checked by TLC; lock-step replay of every edge on the real layers",
+   technique="TLA+ life-cycle specifications (spec/ActNormLife.tla, spec/BatchNormLife.tla with exact rational running statistics) model-checked by TLC; lock-step replay of every edge on the real layers; checkpoints saved from and loaded back into the live layer (Save / LoadSaved) are actions of the ActNorm specification; flow-level histories with individually frozen batch-norm positions",
    text="TLC exhausts the ActNorm initialisation life-cycle and the BatchNorm momentum recurrence (exact rationals, bounded number of updates) and proves init-exactly-once, eval/inverse never initialise, reload keeps state, momentum rule, eval uses running statistics, inverse only in eval. Every edge of both graphs is then executed on the real layers and the state dict, outputs, log-dets and exceptions are compared with the specification state after every step.",
    design_ref="DESIGN.md section 4, C14",
    note="Reference model = documented behaviour (the property's own quantifier); variance kind not fixed. " + TRUSTED),
@@ -42,7 +42,7 @@ CHECKS = {
    note="Feature counts 2..4 (5 thorough), images of 1x2 pixels; dependency measured by autograd (perturbation for UMNN). " + TRUSTED),
 
  "C08": dict(
-   technique="TLA+ specifications of wrapper composition (spec/Compose.tla: denotation of every nesting; spec/Multiscale.tla over Tensor.tla views: shape book-keeping and coordinate routing) model-checked by TLC; every enumerated program / configuration replayed on the real wrappers; nesting depth 3 over two atoms with every nesting skeleton replayed",
+   technique="TLA+ specifications of wrapper composition (spec/Compose.tla: denotation of every nesting; spec/Multiscale.tla over Tensor.tla views: shape book-keeping and coordinate routing) model-checked by TLC; every enumerated program / configuration replayed on the real wrappers; nesting depth 3 over two atoms with every nesting skeleton replayed; every program called repeatedly on the same object; CompositeCDFTransform replayed as the program Comp[A_s,A_c,Inv(A_s)] over a shared atom",
    text="TLC enumerates every nesting of Composite / Inverse up to depth 2 (atoms may repeat) and proves the algebraic laws of the denotation, and every multiscale configuration (rank <= 3, every split dimension, 1-3 stages, odd and even sizes) proving routing bijectivity, stage prefixes and that the inverse undoes the routing. Each state is replayed: real programs against hand-chained shared atoms (outputs and log-det sums, float64 1e-10), real multiscale transforms with prime-scaled affine stage tags against the exact value the specification's routing predicts for every coordinate, the log-det sum, the round trip and the inverse of an arbitrary flat vector.",
    design_ref="DESIGN.md section 4, C08",
    note="Bounded nesting depth / shape sizes. " + TRUSTED),
@@ -53,7 +53,7 @@ CHECKS = {
    design_ref="DESIGN.md section 4, C18",
    note="Bool counts are ints for Python and outside the token set; distributional equality of batched generation is reduced to per-draw provenance. " + TRUSTED),
  "C04": dict(
-   technique="TLA+ pairing / placement properties of spec/DistApi.tla model-checked by TLC; every enumerated sampling call executed on real flows with the harness pairing draw (i,j) with context row i itself; context markers and a harness-controlled random stream (push-forward identity)",
+   technique="TLA+ pairing / placement properties of spec/DistApi.tla model-checked by TLC; every enumerated sampling call executed on real flows with the harness pairing draw (i,j) with context row i itself; context markers and a harness-controlled random stream (push-forward identity); each call preceded by the life-cycle words fresh / checkpoint loaded / sampled-trained-evaluated-again of spec/Session.tla",
    text="RowPairing / RowPlacement are proved on the specification for all draw counts and context rows. On 13 real flows and distributions (with / without embedding network, conditional bases, unconditional coupling transforms) the log-prob returned by sample_and_log_prob must equal log_prob of the returned sample under context row i, markers reveal the row behind each draw, and with torch.randn replaced by a known stream the sample must equal T^-1(mean_i + std_i z).",
    design_ref="DESIGN.md section 4, C04",
    note="The statistical clause (empirical distribution converges) is not decided by this technique; it is replaced by the push-forward identity under a controlled generator plus C03/C05; torch's generators are trusted. " + TRUSTED),
@@ -70,7 +70,7 @@ CHECKS = {
    design_ref="DESIGN.md section 4, C09",
    note="Lattice parameters and inputs only (measure-zero set the random tests never visit); bins <= 3. " + TRUSTED),
  "C17": dict(
-   technique="TLA+ specifications of the bin search / domain checks (spec/Spline.tla incl. the float absorption fact) and of the scalar domains (spec/Scalar.tla) model-checked by TLC; every state executed on the real code in float32 / float64 with 1-ulp neighbours, denormals, large and non-representable bounds",
+   technique="TLA+ specifications of the bin search / domain checks (spec/Spline.tla incl. the float absorption fact) and of the scalar domains (spec/Scalar.tla) model-checked by TLC; every state executed on the real code in float32 / float64 with 1-ulp neighbours, denormals, large and non-representable bounds; the unit-box splines as built by the coupling and autoregressive layers probed at transformed positions in both modes, with and without autograd",
    text="TLC proves InDomainAccepted / OutOfDomainRejected on the exact bin search (and derives the out-of-range bin index of an unclamped search for bounds >= 32 in float32) and on the open / closed domains of the Exp, Tanh, Sigmoid, Logit and CauchyCDF inverses with the probed element anywhere in a batch. Every state runs on the real code: outcome must be finite values or InputOutsideDomain exactly as specified; both spline directions, end points, outside points, tail bounds 31, 32, 1e3, 1e4 and float32-unrepresentable bounds (0.7, 3.3, 17.3, 1000.1).",
    design_ref="DESIGN.md section 4, C17",
    note="Outcome classes only (values are C01/C02). " + TRUSTED),
@@ -99,7 +99,7 @@ CHECKS = {
    note="Off-lattice floating-point cancellation is sampled, not searched; UMNN skipped (float32 internals); ill-conditioned compositions (sigmoid -> CDF -> logit) only at generic points. " + TRUSTED),
 
  "C12": dict(
-   technique="TLA+ specification of batch compositions and of the image reshape / permute pipelines as tensor provenance views (spec/BatchIndep.tla over Tensor.tla) model-checked by TLC; every composition evaluated on every zoo model (freshly built per evaluation) against single-row evaluation",
+   technique="TLA+ specification of batch compositions and of the image reshape / permute pipelines as tensor provenance views (spec/BatchIndep.tla over Tensor.tla) model-checked by TLC; every composition evaluated on every zoo model (freshly built per evaluation) against single-row evaluation; TLA+ specification of the conditioner networks as stage programs (spec/Nets.tla) model-checked by TLC, every finished pass replayed on the real networks (rows coupled in an evaluation pass)",
    text="TLC proves RowLocal for the 1x1-convolution and piecewise-coupling image pipelines for all B,C,H,W up to the bound and enumerates every batch composition (every non-empty subset of a 4-row pool in every order, up to 3 rows, batch size one included). Each composition is evaluated on every zoo transform, distribution and flow in evaluation mode - on a model freshly built and loaded for every evaluation, initialised and pristine - and every row is compared with the same row evaluated alone (forward, inverse, log_prob, transform_to_noise; context rows follow their inputs; rows inside and outside the spline tail bounds are mixed).",
    design_ref="DESIGN.md section 4, C12",
    note="float64 1e-9 (BLAS may reorder); pool of 4 rows. " + TRUSTED),
